@@ -4,7 +4,8 @@ EXTENDS ArchiveCases
 C(v, dp, ip, ix, f, np) == [ver |-> v, dpad |-> dp, ipad |-> ip, idx |-> ix, full |-> f, npad |-> np]
 StdConts == { C(1, 0, 0, "none", FALSE, 0), C(2, 0, 0, "mh", FALSE, 0), C(2, 1, 7, "sorted", FALSE, 0),
               C(2, 59, 0, "none", FALSE, 0), C(2, 0, 3, "mh", TRUE, 0), C(1, 0, 0, "none", FALSE, 3),
-              C(2, 1, 0, "sorted", TRUE, 2) }
+              C(2, 1, 0, "sorted", TRUE, 2),
+              [hx |-> 1] @@ C(2, 0, 0, "mh", FALSE, 0) }     \* payload with a header that is not canonically encoded
 SmallConts == { C(1, 0, 0, "none", FALSE, 0), C(2, 0, 0, "mh", FALSE, 0), C(2, 1, 7, "sorted", FALSE, 0), C(2, 59, 0, "none", FALSE, 0) }
 
 StdRoots == { <<>>, <<"b1">>, <<"b3", "b4">>, <<"b1", "b1">>, <<"b22">> }    \* b22: 305-byte identity CID root
